@@ -134,7 +134,8 @@ def tlc_part(pid, tier, sc, rep):
             r = runmodel.model_check(os.path.join(sc, "tlc"), name, consts, ["PendingLive", "ChanBound"], ["Terminates", "Exits"],
                                      workers=10, timeout=to)
         else:
-            r = runmodel.model_check(os.path.join(sc, "tlc"), name, consts, invs, props, workers=10, timeout=to)
+            r = runmodel.model_check(os.path.join(sc, "tlc"), name, consts, invs, props, workers=10, timeout=to,
+                                     coverage=(name == cfgs[0][0]))
         if r.violated:
             rep.violation("model:%s:%s" % (name, r.violated),
                           "S4Run.tla with constants from the build violates %s in config %s" % (r.violated, name),
@@ -143,9 +144,16 @@ def tlc_part(pid, tier, sc, rep):
             common.tlc_must_pass(r, name)
         states += r.distinct
         trans += r.generated
-        details.append({"config": name, "constants": {k: (sorted(v) if isinstance(v, set) else v) for k, v in consts.items()},
-                        "distinct": r.distinct, "generated": r.generated, "depth": r.depth, "wall_s": round(r.wall, 1),
-                        "result": "ok" if r.ok else str(r.violated)})
+        det = {"config": name, "constants": {k: (sorted(v) if isinstance(v, set) else v) for k, v in consts.items()},
+               "distinct": r.distinct, "generated": r.generated, "depth": r.depth, "wall_s": round(r.wall, 1),
+               "result": "ok" if r.ok else str(r.violated)}
+        if name == cfgs[0][0]:
+            # vacuity report (-coverage 1): how often each action of the specification was taken in this configuration
+            import re as _re
+            acts = _re.findall(r"<(\w+) line \d+, col \d+ to line \d+, col \d+ of module S4Run>: (\d+):(\d+)", r.output)
+            det["action_counts"] = {a: int(n2) for a, n1, n2 in acts}
+            det["actions_never_taken"] = sorted(a for a, n1, n2 in acts if int(n2) == 0)
+        details.append(det)
     return states, trans, details
 
 
